@@ -17,7 +17,7 @@ P("C32",
              "every port and evaluating trace_wf on the recorded event list inside Coq (the Coq verdict is also compared with an "
              "independent Go implementation of the acceptor). Sampling found five defects: three were fixed in /repo (write-through "
              "cache, ROB, writeback req_out/evict), a writeback residual, DRAM and tracing-without-buffer-tracing are known findings; "
-             "back-pressure variants (one-slot port buffers, a slow single-bank memory under a deep ROB, a memory module driven directly with one-slot Control buffers, back-to-back control verbs and a requester that retrieves acknowledgements late) and translation stacks [address translator] -> 0..2 TLBs -> [MMU cache] -> MMU/GMMU are sampled too (four more defects fixed: TLB and MMU cache control-path milestones, GMMU remote-walk req_in never closed, TLB Reset re-ending a finalized req_out). Trusted: Coq kernel + vm_compute; the Go harness (recorder; numbering of kind/location strings; task IDs of sampled traces renumbered 1,2,3.. in order of first appearance, which the acceptor cannot tell apart since it compares IDs only for equality); the "
+             "back-pressure variants (one-slot port buffers, a slow single-bank memory under a deep ROB, a memory module driven directly with one-slot Control buffers, back-to-back control verbs, a requester that retrieves acknowledgements late, and a requester that stops retrieving data responses for a window so that resets fall on a module blocked on a full Top port) and translation stacks [address translator] -> 0..2 TLBs -> [MMU cache] -> MMU/GMMU are sampled too (four more defects fixed: TLB and MMU cache control-path milestones, GMMU remote-walk req_in never closed, TLB Reset re-ending a finalized req_out). Trusted: Coq kernel + vm_compute; the Go harness (recorder; numbering of kind/location strings; task IDs of sampled traces renumbered 1,2,3.. in order of first appearance, which the acceptor cannot tell apart since it compares IDs only for equality); the "
              "shared memasm assembly builder.",
   assumptions=["quiescence of a control history means: the history ends with Enable+Reset of every module, top-down and then bottom-up, "
                "and the agent could issue all of it (a reset of one lower module alone legitimately strands the requests of the modules "
